@@ -18,6 +18,7 @@ import (
 	"math"
 	"os"
 	"reflect"
+	"runtime"
 	"regexp"
 	"strconv"
 	"strings"
@@ -774,6 +775,9 @@ func exec(line string) (out, label string, res *result) {
 	case ws[0] == "resetconc" && len(ws) == 4:
 		o, l := doConc(ws)
 		return o, l, nil
+	case ws[0] == "resetconcrec" && len(ws) == 4:
+		o, l := doConcRec(ws)
+		return o, l, nil
 	case ws[0] == "newuser" && (len(ws) == 3 || len(ws) == 5):
 		return doNewUser(ws)
 	case (ws[0] == "set" || ws[0] == "de") && len(ws) == 3:
@@ -1085,8 +1089,246 @@ func doConc(ws []string) (string, string) {
 	return "done", fmt.Sprintf("conc:%dx%d", G, N)
 }
 
+// decodeRec: bytes -> struct, as cmbbs.PasswdQuery does it.
+func decodeRec(b []byte) *ptttype.UserecRaw {
+	r := &ptttype.UserecRaw{}
+	if err := binary.Read(bytes.NewReader(b), binary.LittleEndian, r); err != nil {
+		panic(err)
+	}
+	return r
+}
+
+// sameRecord: got is the serialisation of a struct read from want (bool bytes are normalised by encoding/binary).
+func sameRecord(got, want []byte) int {
+	for k := range want {
+		if got[k] != want[k] && !(isBoolOff(k) && (got[k] != 0) == (want[k] != 0)) {
+			return k
+		}
+	}
+	return -1
+}
+
+// doConcRec: `resetconcrec G N seed`: whole-record writers of DIFFERENT users at the same time.  G goroutines, each
+// the only writer of its own slot, N calls each out of: SetUMoney / DeUMoney, ptt.SetUserPerm with the goroutine's
+// own copy of its record (the whole-record writer cmbbs.PasswdUpdate behind passwdSyncUpdate), ptt.GetUser of its
+// own user; plus one goroutine that registers new users (ptt.SetupNewUser) into free slots meanwhile.  Afterwards
+// EVERY slot of .PASSWDS and of the SHM money array is judged: a slot with a writer must hold exactly what its only
+// writer last wrote (Money = SHM = plain arithmetic), every bystander slot must be byte-identical to the start.
+func doConcRec(ws []string) (string, string) {
+	g64, ok1 := parseNat(ws[1], 2)
+	n64, ok2 := parseNat(ws[2], 6)
+	seed, ok3 := parseNat(ws[3], 19)
+	G, N := int(g64), int(n64)
+	if !(ok1 && ok2 && ok3) || G < 1 || 2*G > nSlot || N < 1 || N > 100000 {
+		return "bad-op", "bad-op"
+	}
+	line := strings.Join(ws, " ")
+	free := []int64{MAX / 2, MAX/2 + 2, MAX/2 + 4}
+	slots := concSlots(G)
+	for _, u := range slots {
+		for _, fr := range free {
+			if u == fr {
+				panic("c20: owned slot in the free set")
+			}
+		}
+	}
+	setupNames(free)
+	start := fill(seed, recSize*nSlot)
+	var arr [nSlot]int32
+	for s := 0; s < nSlot; s++ {
+		arr[s] = int32(1000 * (s + 1))
+		binary.LittleEndian.PutUint32(start[recSize*s+moneyOff:], uint32(arr[s]))
+	}
+	if err := os.WriteFile(ptttype.FN_PASSWD, start, 0o600); err != nil {
+		panic(err)
+	}
+	_ = os.WriteFile(ptttype.FN_FRESH, []byte("fresh"), 0o644)
+	cache.Shm.Shm.Money = arr
+
+	img := make([][]byte, G)   // what the only writer of the slot last put there
+	final := make([]int64, G)  // its balance by plain arithmetic
+	firstBad := make([]pending, G+1)
+	var wg sync.WaitGroup
+	gate := make(chan struct{})
+	for k := 0; k < G; k++ {
+		wg.Add(1)
+		go func(k int) {
+			defer wg.Done()
+			r := hx.NewRand(seed*1000 + uint64(k) + 7)
+			u := slots[k]
+			base := recSize * int(u-1)
+			my := append([]byte{}, start[base:base+recSize]...)
+			cp := decodeRec(my)
+			bal := int64(arr[u-1])
+			bad := func(key, what string) {
+				if firstBad[k].key == "" {
+					firstBad[k] = pending{key, what}
+				}
+			}
+			<-gate
+			res := hx.CallSync(func() string {
+				for i := 0; i < N; i++ {
+					switch c := r.Intn(10); {
+					case c < 2:
+						v := int64(r.Intn(1000000))
+						got, err := cache.SetUMoney(ptttype.UID(u), int32(v))
+						bal = v
+						binary.LittleEndian.PutUint32(my[moneyOff:], uint32(int32(bal)))
+						if err != nil || int64(got) != bal {
+							bad("mismatch:arith", fmt.Sprintf("call %d of the writer of slot %d: SetUMoney(%d) returned (%d, %v)", i, u, v, got, err))
+						}
+					case c < 5:
+						d := int64(r.Intn(4001)) - 2000
+						got, err := cache.DeUMoney(ptttype.UID(u), int32(d))
+						if d < 0 && bal < -d {
+							bal = 0
+						} else {
+							bal += d
+						}
+						binary.LittleEndian.PutUint32(my[moneyOff:], uint32(int32(bal)))
+						if err != nil || int64(got) != bal {
+							bad("mismatch:arith", fmt.Sprintf("call %d of the writer of slot %d: DeUMoney(%d) returned (%d, %v), plain arithmetic says %d", i, u, d, got, err, bal))
+						}
+					case c < 9:
+						perm := ptttype.PERM(uint32(k)<<24 | uint32(i))
+						cp.Money = int32(r.Intn(1000)) // whatever the caller's copy carries
+						_, err := ptt.SetUserPerm(nil, ptttype.UID(u), cp, perm)
+						want := *cp
+						want.UserLevel = perm
+						want.Money = int32(bal)
+						my = encode(&want)
+						if err != nil {
+							bad("valid-slot-rejected", fmt.Sprintf("call %d of the writer of slot %d: SetUserPerm: %v", i, u, err))
+						}
+					default:
+						rec, err := ptt.GetUser(slotName(u))
+						if err != nil || rec == nil {
+							bad("valid-slot-rejected", fmt.Sprintf("call %d of the writer of slot %d: GetUser: %v", i, u, err))
+							break
+						}
+						if int64(rec.Money) != bal {
+							bad("mismatch:arith", fmt.Sprintf("call %d of the writer of slot %d: GetUser carries Money=%d, plain arithmetic says %d", i, u, rec.Money, bal))
+						} else if at := sameRecord(encode(rec), my); at >= 0 {
+							bad("query-record", fmt.Sprintf("call %d of the only writer of slot %d: GetUser returned a record that differs at byte %d from what that writer last wrote (user id in the record: %q)", i, u, at, types.CstrToString(rec.UserID[:])))
+						}
+					}
+				}
+				return ""
+			})
+			if res == "PANIC" {
+				bad("crash:valid-slot", fmt.Sprintf("the writer of slot %d panicked: %s", u, hx.LastPanic))
+			}
+			img[k], final[k] = my, bal
+		}(k)
+	}
+	// the registrar
+	regIDs := []string{"regA", "regB", "regC"}
+	regMoney := []int64{11, 0, 123456}
+	wg.Add(1)
+	go func() {
+		defer wg.Done()
+		<-gate
+		res := hx.CallSync(func() string {
+			for j, id := range regIDs {
+				for y := 0; y < 50; y++ {
+					runtime.Gosched()
+				}
+				if err := ptt.SetupNewUser(newUserRec(fmt.Sprintf("%s%d", id, seed%1000), regMoney[j])); err != nil && firstBad[G].key == "" {
+					firstBad[G] = pending{"valid-slot-rejected", fmt.Sprintf("SetupNewUser(%s) with %d free slots: %v", id, len(free)-j, err)}
+				}
+			}
+			return ""
+		})
+		if res == "PANIC" && firstBad[G].key == "" {
+			firstBad[G] = pending{"crash:valid-slot", "the registrar panicked: " + hx.LastPanic}
+		}
+	}()
+	close(gate)
+	wg.Wait()
+	namesDirty = true
+
+	// ---- expected image of EVERY slot -----------------------------------------------------------
+	type exp struct {
+		rec    []byte
+		bal    int64
+		writer string
+	}
+	expect := map[int64]exp{}
+	for k, u := range slots {
+		expect[u] = exp{img[k], final[k], fmt.Sprintf("goroutine %d (money ops + SetUserPerm)", k)}
+	}
+	for j, id := range regIDs {
+		name := fmt.Sprintf("%s%d", id, seed%1000)
+		got, _ := cache.SearchUserRaw(idOf(name), nil)
+		u := int64(got)
+		isFree := false
+		for _, fr := range free {
+			isFree = isFree || fr == u
+		}
+		if _, dup := expect[u]; !isFree || dup {
+			if firstBad[G].key == "" {
+				firstBad[G] = pending{"valid-slot-rejected", fmt.Sprintf("registered id %s was given slot %d, not one of the free slots %v", name, u, free)}
+			}
+			continue
+		}
+		expect[u] = exp{encode(newUserRec(name, regMoney[j])), regMoney[j], "the registration of " + name}
+	}
+	fails := map[string]bool{}
+	fail := func(key, what string) {
+		if !fails[key] {
+			fails[key] = true
+			pendingFails = append(pendingFails, pending{key, line + ": " + what})
+		}
+	}
+	for _, b := range firstBad {
+		if b.key != "" {
+			fail(b.key, b.what)
+		}
+	}
+	got, _ := readFile()
+	now := shmNow()
+	if len(got) != len(start) {
+		fail("frame:concurrent", fmt.Sprintf(".PASSWDS is %d bytes long, expected %d (something was written past the last record)", len(got), len(start)))
+	}
+	if len(got) >= len(start) {
+		for u := int64(1); u <= MAX; u++ {
+			base := recSize * int(u-1)
+			rec := got[base : base+recSize]
+			owner := types.CstrToString(rec[idOff : idOff+ptttype.IDLEN+1])
+			if e, ok := expect[u]; ok {
+				d, _ := diskMoney(got, u)
+				if int64(now[u-1]) != e.bal {
+					fail("mismatch:arith", fmt.Sprintf("slot %d (only writer: %s): Shm.Money=%d, plain arithmetic says %d", u, e.writer, now[u-1], e.bal))
+				}
+				if d != int64(now[u-1]) {
+					fail("mismatch:shm-disk", fmt.Sprintf("slot %d (only writer: %s): Shm.Money=%d but .PASSWDS money=%d (user id in the slot: %q)", u, e.writer, now[u-1], d, owner))
+				}
+				for k := 0; k < recSize; k++ {
+					if (k < moneyOff || k >= moneyOff+4) && rec[k] != e.rec[k] {
+						fail("frame:record", fmt.Sprintf("slot %d (only writer: %s): byte %d of the record is %#02x, its writer wrote %#02x (user id in the slot: %q)", u, e.writer, k, rec[k], e.rec[k], owner))
+						break
+					}
+				}
+			} else {
+				for k := 0; k < recSize; k++ {
+					if rec[k] != start[base+k] {
+						fail("frame:concurrent", fmt.Sprintf("bystander slot %d (nobody wrote to it): byte %d of its record changed from %#02x to %#02x (user id now in the slot: %q)", u, k, start[base+k], rec[k], owner))
+						break
+					}
+				}
+				if now[u-1] != arr[u-1] {
+					fail("frame:shm", fmt.Sprintf("bystander slot %d: Shm.Money changed from %d to %d", u, arr[u-1], now[u-1]))
+				}
+			}
+		}
+	}
+	P = oracle{}
+	stale = map[int64]*ptttype.UserecRaw{}
+	return "done", fmt.Sprintf("concrec:%dx%d", G, N)
+}
+
 func generateConcurrent() {
-	run.Rule = "concurrent stress (property oracle only; the model answers `done`): resetconc G N seed = G goroutines x N SetUMoney/DeUMoney calls, each goroutine the only writer of its own slot (1, MAX_USERS, 2, MAX_USERS-1, ...), started together; afterwards every byte of .PASSWDS and every SHM entry is compared with the image plain arithmetic gives. nontrivial = a resetconc that ran"
+	run.Rule = "concurrent stress (property oracle only; the model answers `done`): resetconc G N seed = G goroutines x N SetUMoney/DeUMoney calls, each goroutine the only writer of its own slot (1, MAX_USERS, 2, MAX_USERS-1, ...), started together; afterwards every byte of .PASSWDS and every SHM entry is compared with the image plain arithmetic gives. `resetconcrec G N seed` = the same with whole-record writers: every goroutine mixes SetUMoney/DeUMoney, ptt.SetUserPerm with its own (stale-Money) copy and ptt.GetUser on its own slot while a registrar runs ptt.SetupNewUser into free slots; every slot of .PASSWDS is judged, bystanders included. nontrivial = a resetconc/resetconcrec that ran"
 	if run.Replay != "" {
 		for _, l := range hx.ReplayOps(run.Replay) {
 			do(l)
@@ -1101,6 +1343,13 @@ func generateConcurrent() {
 		g := []int{8, 16, 4, 25}[k%4]
 		do(fmt.Sprintf("resetconc %d %d %d", g, n, run.R.U64()%1000000007))
 	}
+	// whole-record writers of different users at the same time (+ money writers, readers, a registrar)
+	for k := 0; k < rounds; k++ {
+		g := []int{2, 8, 16, 4, 22, 3}[k%6]
+		do(fmt.Sprintf("resetconcrec %d %d %d", g, n/2, run.R.U64()%1000000007))
+	}
+	do("resetconcrec 0 10 1")
+	do("resetconcrec 4 10")
 	do("resetconc 0 10 1")
 	do("resetconc 26 10 1")
 	do("resetconc 4 0 1")
